@@ -401,6 +401,23 @@ def finite_case(api):
     for name, (f, base, syn, vals) in readers.items():
         accepts(name + "/base", lambda: f(copy.deepcopy(base)))
         raises(name + "/unknown-key", lambda: f(dict(copy.deepcopy(base), **{"no_such_key": 1})))
+        # keys close to the accepted ones: every proper substring of an accepted key, and every accepted key with one more
+        # character in front or behind, is refused unless it is itself an accepted key (a synonym group that is a bare
+        # string instead of a list turns the membership test into a substring test)
+        accepted = {a for group in syn for a in group}
+        near = set()
+        for a in accepted:
+            near.update(a[i:j] for i in range(len(a)) for j in range(i + 1, len(a) + 1))
+            near.update((a + "x", "x" + a, a + " ", a.upper()))
+        wrongly = []
+        for k in sorted(near - accepted):
+            try:
+                f(dict(copy.deepcopy(base), **{k: 1}))
+                wrongly.append(k)
+            except Exception:
+                pass
+        api.check("%s/%s/keys-near-the-accepted-ones-are-refused (%d keys)" % (P, name, len(near - accepted)), not wrongly,
+                  "accepted: %r" % (wrongly[:6],))
         for group in syn:
             canon = group[0]
             v = base.get(canon, vals.get(canon))
